@@ -148,23 +148,9 @@ _rule_classes = {}
 
 def _custom_rule_classes():
     if not _rule_classes:
-        from vakt.rules.base import Rule
-
-        class BrokenRule(Rule):
-            def __init__(self, exc):
-                self.exc = exc
-
-            def satisfied(self, what, inquiry=None):
-                raise exc_class(self.exc)('injected')
-
-        class ConstRule(Rule):
-            def __init__(self, value):
-                self.value = value
-
-            def satisfied(self, what, inquiry=None):
-                return self.value
-        _rule_classes['Broken'] = BrokenRule
-        _rule_classes['Const'] = ConstRule
+        from . import customrules
+        _rule_classes['Broken'] = customrules.BrokenRule
+        _rule_classes['Const'] = customrules.ConstRule
     return _rule_classes
 
 
